@@ -1,4 +1,9 @@
 TEXTS = {
+ "C03": {
+  "text": "Lean theorems prove, for every well-formed rule and every path string (no length/depth bound, newlines and metacharacters included), that the regular-expression tokens the code compiles decide exactly the documented segment-wise glob (C03_compile_sound), that evaluation is last-match-wins (C03_last_match_wins), what the built-in rules exclude (C03_defaults), that parsing establishes the negationsAfter invariant (C03_marking) and that pruning on a dominating match is sound for tail-closed rule sets (C03_prune_sound; counterexample C03_cex_prune_star_tail for 'foo/*', recorded finding F32). The model is run next to the real ParseIgnoreFileContent/Excludes on generated rule files x paths on every run and every verdict is also judged by an independent Go matcher; the rule table, escape set and (?s) flag are re-extracted from the source before the proofs are re-checked.",
+  "note": "Trusted: Lean kernel (+propext, Quot.sound, Classical.choice); regexp engine modelled on the five-fragment subset; patterns using [ ] or backslash are outside the model; Pack-level and bundle-level filtering (walk + pruning) are covered by the pack/bundle lanes as they are added (see level of C03 in DESIGN.md §8).",
+  "technique": "Lean 4 proof (strong induction over pattern/path; invariant over the line loop) + differential correspondence + regenerated facts",
+ },
  "C11": {
   "text": "Lean theorems (C11_join_spec, C11_resolve_spec, C11_never_escapes, C11_same_kind, C11_abs_unchanged) prove for every valid base sub-path and every relative path, of any depth, that the modelled joinSubPath/resolveRelative is the failing segment stack; the model is run next to ResolveRelativeSource/ResolveRelativeFinalSource/FinalSourceAddr on an exhaustive small-scope enumeration plus random cases on every run, and every case is also judged by an independent Go segment-stack oracle.",
   "note": "Trusted: Lean kernel (+propext, Quot.sound, Classical.choice), the Base/Path model of Go's path.Clean/Join and fs.ValidPath (validated on the paths lane), the harness. Package/URL parts are opaque in this slice. Composition law is validated by the oracle only (no theorem yet).",
